@@ -603,8 +603,8 @@ def corr_atoms(ck, rng, mod, lay):
         """same varied field on both sides (the grid of that field); isotopes only within one element"""
         if 'iso' in fa:
             return qs.get('kind', 'elem') == 'elem' and qs.get('num', 6) == sa['num'] and qfields <= {'num', 'iso'}
-        if qs.get('kind', 'elem') in ('any', 'list') and fa and fa <= {'chg', 'rad'}:
-            return True          # every AnyElement / ListElement against the charge x radical grid
+        if fa and fa <= {'chg', 'rad'} and (qs.get('kind', 'elem') in ('any', 'list') or any(h > 4 for h in (qs.get('h') or ()))):
+            return True          # every AnyElement / ListElement / query with hydrogens above 4 against the charge x radical grid
         if not qfields or qfields == {'num'} or qfields == {'nums'}:
             return fa == {'num'}
         return bool(fa) and fa != {'num'} and len(fa) <= 2 and fa >= (qfields - {'num', 'nums'}) and bool(qfields - {'num', 'nums'})
@@ -787,7 +787,13 @@ def directed_atoms(ck, items, qspecs, aspecs, mdl):
             good = [a for a in acands if in_range_atom(a)]
             if not good:
                 continue
-            m = synth_mol(good)
+            try:
+                m = synth_mol(good)
+            except ValueError:      # a candidate atom with an isotope the Element setter rejects
+                good = [a for a in good if not a.get('iso')]
+                if not good:
+                    continue
+                m = synth_mol(good)
             tried += len(good)
             fast, slow = both_paths(q, m, automorphism_filter=False)
             if isinstance(fast, str) or as_set(fast) != as_set(slow):
@@ -984,7 +990,7 @@ def report_pair(ck, qtext, text, q, m, what, kw=None):
 KNOWN_PROBES = [
     ('anymetal-rn', '[M]', '[Rn]', 'AnyMetal mask accepts radon (and Og through the Lv bit); AnyMetal.__eq__ rejects noble gases'),
     ('hydrogens-none', '[N;h0]', 'c1ccncc1', 'implicit_hydrogens None (aromatic heteroatom as parsed, valence error) is encoded as 0 hydrogens'),
-    ('query-hydrogens-over-4', '[C;h0,h5]', '[C-4]', 'query hydrogens 5..14 alias the charge / radical bits'),
+    ('query-hydrogens-over-4', '[C;h3,h8]', '[CH3-]', 'query hydrogens 5..14 alias the charge / radical bits'),
     ('query-isotope-offset', '[21C]', 'C', 'query isotope 9 above mdl_isotope lands on the "isotope not specified" bit'),
     ('query-isotope-offset-raises', '[30C]', 'C', 'query isotope >= 10 above (or > 54 below) mdl_isotope: the encoder raises'),
     ('stack-overflow:stack_index', 'C123C45C16C24C356', 'C123C45C16C24C356', 'stack arrays of 2*atoms_count cells overflow on dense graphs (K5)'),
